@@ -141,6 +141,17 @@ def gen(tier, rng):
             for level in (1, 2, 3, 0):
                 if tier == "quick" and (hb + ci + level) % 2 and hb not in (2,): continue
                 add(api=["deflate_stateless", "deflate"][(ci + level) % 2], inp=grp, level=level, wrap=[0, 1, 3][(hb + level) % 3], hist_bits=hb, lbuf=3, calls=[[len(grp), len(grp) + 600, 0, 1]], tail_ao=1 << 16, meta={"cls": "dominant-literal-groups-tiny-window", "cpu": cpu})
+    # incompressible input of exactly k * 65535 bytes (whole stored sub-blocks) with the output space at the documented bound and a little above:
+    # whatever is reported as success must be a complete stream
+    over = {0: 0, 1: 18, 2: 8, 3: 6, 4: 4}
+    for n in (65535, 131070) if tier == "quick" else (65535, 131070, 196605, 65534, 65536):
+        rnd = igz.corpus(rng, "random", n)
+        for level in range(4):
+            for wi, wrap in enumerate(wraps):
+                if tier == "quick" and (level + wi + n // 65535) % 2: continue
+                bound = n + 5 * max(1, (n + 65534) // 65535) + over[wrap]
+                for slack in (0, 2, 9):
+                    add(api="deflate_stateless", inp=rnd, level=level, wrap=wrap, lbuf=3, calls=[[n, bound + slack, 0, 1]], meta={"cls": "whole-stored-sub-blocks-at-the-bound", "cpu": CPUS[(level + wi) % len(CPUS)]})
     # large inputs: stored-block splitting at 65535, 16-bit hash position wrap, internal buffer wrap
     big = [("random", 70000, 0), ("periodic", 200000, 2), ("text", 66000, 1), ("records", 36000 if tier == "quick" else 140000, 3)]
     if tier == "thorough":
